@@ -101,25 +101,14 @@ def run(ctx):
         alts.append(s)
     ts_seps = sorted(set(alts))
     # python sites defining line keys
-    sites = []
-    for fid in ('nbdime.diffing.sequences:diff_strings_linewise', 'nbdime.diff_utils:flatten_list_of_string_diff',
-                'nbdime.merging.generic:_merge_strings', 'nbdime.utils:as_text_lines'):
-        fn = repo.func(fid)
-        cs = [c for c in calls_in(fn, nested=False) if isinstance(c.func, ast.Attribute) and c.func.attr in ('splitlines', 'split')]
-        if not cs:
-            raise AnalysisError('%s no longer splits lines' % fid)
-        for c in cs:
-            if c.func.attr == 'splitlines' and c.args and const_val(c.args[0]) is True:
-                sites.append((fid, c, PY_SPLITLINES))
-            elif c.func.attr == 'split' and c.args and isinstance(const_val(c.args[0]), str):
-                sites.append((fid, c, [const_val(c.args[0])]))
-            else:
-                sites.append((fid, c, None))
-    py_sets = {tuple(sorted(s)) if s else None for _, _, s in sites}
-    ok = len(py_sets) == 1 and None not in py_sets
-    ctx.inst('R15.3', 'nbdime:<line-key sites>', '%d Python sites split with %s' % (len(sites), sorted({ast.unparse(c.func.attr if False else c)[-18:] for _, c, _ in sites})), ok,
-             'all Python sites that define line keys use the same splitter' if ok else 'Python sites disagree among themselves on line splitting',
-             sites[0][1])
+    from ..linemodel import python_line_sites
+    psites = python_line_sites(ctx)
+    sigs = {tuple(sig) for fid, sig, node in psites}
+    ok = sigs == {('splitlines(True)',)}
+    ctx.inst('R15.3', 'nbdime:<line-key sites>', '%d Python sites: %s' % (len(psites), sorted({s for f, sg, n in psites for s in sg})), ok,
+             'all Python sites that define line keys use str.splitlines(True)' if ok else
+             'Python sites disagree among themselves / use a custom splitter: %s' % {f.split(':')[1]: sg for f, sg, n in psites}, psites[0][2])
+    py_sets = {tuple(sorted(PY_SPLITLINES))} if ok else {None}
     if ok:
         py = sorted(next(iter(py_sets)))
         only_py = [repr(x) for x in py if x not in ts_seps]
